@@ -42,9 +42,24 @@ def reset (i : Inst) : State :=
 /-- indices of the chosen locations in increasing order: `chosen.nonzero(as_tuple=True)[1]` -/
 def chosenIdx (n : Nat) (chosen : Nat → Bool) : List Nat := (List.range n).filter chosen
 
-/-- `gather_by_index(orig_distances, idx).view(B, -1, n).min(dim=1).values` at column `j` -/
+/-- `gather_by_index(orig_distances, idx, dim)`: `dim = 1` (the default) gathers the ROWS `D c ·` of the
+chosen facilities `c`; `dim = 2` would gather columns `D · c`. -/
+def gathered (gdim : Nat) (i : Inst) (c j : Nat) : Int := if gdim = 1 then i.D c j else i.D j c
+
+/-- `gather_by_index(orig_distances, idx, gdim).view(B, -1, n).min(mdim).values` at position `j`:
+`mdim = 1` reduces over the gathered facilities (one value per location `j`); another axis would
+reduce over the locations (one value per chosen facility, the `j`-th). -/
+def minOver (gdim mdim : Nat) (i : Inst) (chosen : Nat → Bool) (j : Nat) : Int :=
+  if mdim = 1 then minList ((chosenIdx i.n chosen).map (fun c => gathered gdim i c j))
+  else minList ((List.range i.n).map (fun l => gathered gdim i ((chosenIdx i.n chosen).getD j 0) l))
+
+/-- the expression of `_step` (axes extracted from the source) -/
 def curMinDist (i : Inst) (chosen : Nat → Bool) (j : Nat) : Int :=
-  minList ((chosenIdx i.n chosen).map (fun c => i.D c j))
+  minOver Params.flpStepGatherDim Params.flpStepMinDim i chosen j
+
+/-- the expression of `_get_reward` (axes extracted from the source) -/
+def rewardMinDist (i : Inst) (chosen : Nat → Bool) (j : Nat) : Int :=
+  minOver Params.flpRewardGatherDim Params.flpRewardMinDim i chosen j
 
 /-- `action_mask = ~chosen` -/
 def mask (_ : Inst) (s : State) (a : Nat) : Bool := !(s.chosen a)
@@ -53,7 +68,7 @@ def mask (_ : Inst) (s : State) (a : Nat) : Bool := !(s.chosen a)
 def step (i : Inst) (s : State) (a : Nat) : State :=
   let chosen := upd s.chosen a true
   { chosen := chosen
-    done := Params.flpDoneCmp.eval s.i (i.quota - 1)
+    done := Params.flpDoneCmp.eval s.i (i.quota - Params.flpDoneOffset)
     dist := curMinDist i chosen
     i := s.i + 1 }
 
@@ -67,7 +82,7 @@ def env : Env Inst State where
   done := done
 
 /-- `_get_reward`: computed from `td["chosen"]` of the final state (not from the action tensor). -/
-def reward (i : Inst) (s : State) : Int := - sumRange i.n (curMinDist i s.chosen)
+def reward (i : Inst) (s : State) : Int := - sumRange i.n (rewardMinDist i s.chosen)
 
 end Flp
 end Rl4co
